@@ -472,6 +472,9 @@ def configs(tier, seed):
     corner += [{"shape": (4, False), "struct": True, "depth": 4, "init": [0b0110], "wports": [{"domain": "sync", "gran": None}],
                 "rports": [{"domain": "sync", "transparent": [0]}, {"domain": "comb", "transparent": []}]},
                {"shape": (4, False), "struct": True, "depth": 2, "init": [], "wports": [], "rports": [{"domain": "comb", "transparent": []}]}]
+    # the same write port named twice in a transparency set (a tuple, not a set, in the API)
+    corner += [{"shape": (4, False), "depth": 3, "init": [1, 2, 3], "wports": [{"domain": "sync", "gran": None}, {"domain": "sync", "gran": None}],
+                "rports": [{"domain": "sync", "transparent": [0, 0]}, {"domain": "sync", "transparent": [1, 0, 1]}]}]
     corner += [dict(corner[0], reset={"sync": "sync"}), dict(corner[0], reset={"sync": "async"}), dict(corner[2], reset={"sync": "async"}),
                dict(corner[6], reset={"wr": "async", "rd": "sync"}), dict(corner[1], reset={"sync": "async"})]
     out.extend(corner)
@@ -499,6 +502,8 @@ def configs(tier, seed):
         for _ in range(r.randint(0, 2)):
             d = r.choice(doms + ["comb"])
             tr = [i for i, p in enumerate(wports) if p["domain"] == d and r.random() < 0.5] if d != "comb" else []
+            if tr and r.random() < 0.15:
+                tr = tr + [tr[0]]
             rports.append({"domain": d, "transparent": tr})
         cfg = {"shape": (w, sg), "depth": depth, "init": init, "wports": wports, "rports": rports}
         if r.random() < 0.3:
